@@ -310,7 +310,40 @@ def gen_grep():
     return "GenGrep.v", text, {"colour_regex_is_modelled": same}
 
 
-GENERATORS = {"proc": gen_proc, "vte": gen_vte, "features": gen_features, "syntax": gen_syntax, "counter": gen_counter, "grep": gen_grep}
+def gen_merge():
+    """which buffers MergeConflictLines::clear() empties, and the four conflict-marker strings of
+    src/handlers/merge_conflict.rs"""
+    src = rustsrc.load(os.path.join(REPO, "src/handlers/merge_conflict.rs"))
+    body = norm(rustsrc.fn_body(src, r"fn clear\(&mut self\)"))
+    stmts = [x.strip() for x in body.split(";") if x.strip()]
+    cleared = {"Ours": False, "Ancestral": False, "Theirs": False}
+    for st_ in stmts:
+        m = re.fullmatch(r"self\[(Ours|Ancestral|Theirs)\]\.clear\(\)", st_)
+        if not m:
+            raise PatternError("MergeConflictLines::clear has a statement that is not `self[<commit>].clear()`: " + st_)
+        cleared[m.group(1)] = True
+    marks = {}
+    for name, fn, pat in (("begin", r"fn enter_merge_conflict\(", r'parse_merge_marker\(&self\.line, "([^"]+)"\)'),
+                          ("anc", r"fn enter_ancestral\(", r'parse_merge_marker\(&self\.line, "([^"]+)"\)'),
+                          ("sep", r"fn enter_theirs\(", r'self\.line\.starts_with\("([^"]+)"\)'),
+                          ("end", r"fn exit_merge_conflict\(", r'parse_merge_marker\(&self\.line, "([^"]+)"\)')):
+        m = re.search(pat, norm(rustsrc.fn_body(src, fn)))
+        if not m:
+            raise PatternError(f"merge_conflict.rs: marker test of {fn} not found")
+        marks[name] = m.group(1)
+    pm = norm(rustsrc.fn_body(src, r"fn parse_merge_marker<"))
+    if pm != "match line.strip_prefix(marker) { Some(suffix) => { let suffix = suffix.trim(); if !suffix.is_empty() { Some(suffix) } else { None } } None => None, }":
+        raise PatternError("parse_merge_marker has a different shape: " + pm)
+    text = ("(* GENERATED by tools/translate.py from src/handlers/merge_conflict.rs (MergeConflictLines::clear and the\n"
+            "   marker tests of enter_merge_conflict / enter_ancestral / enter_theirs / exit_merge_conflict). *)\n"
+            "From Coq Require Import String List.\nFrom DV Require Import Text MergeConflict.\n"
+            "Definition code_cleared (d : side) : bool :=\n  match d with\n"
+            f"  | Ours => {coq_bool(cleared['Ours'])}\n  | Anc => {coq_bool(cleared['Ancestral'])}\n  | Theirs => {coq_bool(cleared['Theirs'])}\n  end.\n"
+            + "".join(f'Definition code_marker_{n} : text := lit "{marks[n]}".\n' for n in ("begin", "anc", "sep", "end")))
+    return "GenMerge.v", text, {"cleared": cleared, "markers": marks}
+
+
+GENERATORS = {"proc": gen_proc, "vte": gen_vte, "features": gen_features, "syntax": gen_syntax, "counter": gen_counter, "grep": gen_grep, "merge": gen_merge}
 
 
 def run(which=None):
